@@ -1843,3 +1843,267 @@ Proof.
   split; [exact HB'|]. split; [exact HD'|].
   vm_compute. repeat split; try discriminate; try reflexivity; repeat constructor; try discriminate; try reflexivity.
 Qed.
+
+(* ------------------------------------------------------------------ *)
+(* 11. one definition per name over histories of ACCEPTED calls: with   *)
+(*     the same-call checks (c22ef06, 40183ea) freshness is only needed *)
+(*     against the state BEFORE the call                                *)
+(* ------------------------------------------------------------------ *)
+Lemma range_app : forall n1 n2 lo, range lo (n1 + n2) = range lo n1 ++ range (lo + N.of_nat n1) n2.
+Proof.
+  induction n1 as [|n1 IH]; intros n2 lo; cbn [range plus app].
+  - rewrite N.add_0_r. reflexivity.
+  - rewrite IH. f_equal. f_equal. f_equal. lia.
+Qed.
+
+Lemma range_split : forall lo cnt j, lo <= j < lo + N.of_nat cnt ->
+  exists n1 n2, range lo cnt = range lo n1 ++ j :: range (j + 1) n2 /\ lo + N.of_nat n1 = j.
+Proof.
+  intros lo cnt j Hj. exists (N.to_nat (j - lo)), (cnt - S (N.to_nat (j - lo)))%nat.
+  assert (Hc : cnt = (N.to_nat (j - lo) + S (cnt - S (N.to_nat (j - lo))))%nat) by lia.
+  split; [|lia]. rewrite Hc at 1. rewrite range_app. cbn [range]. repeat f_equal; lia.
+Qed.
+
+Definition named_at (s : space) (i : id) : list name :=
+  match lookup N.eqb i (entries s) with Some (Named n _) => [n] | _ => [] end.
+
+Lemma created_names_eq : forall base s, created_names base s = flat_map (named_at s) (range base (N.to_nat (next_id s - base))).
+Proof. reflexivity. Qed.
+
+Lemma in_range : forall cnt lo k, In k (range lo cnt) -> lo <= k.
+Proof. induction cnt as [|c IH]; intros lo k H; cbn [range] in H; [destruct H|]. destruct H as [->|H]; [lia|]. apply IH in H. lia. Qed.
+
+Lemma two_named_dup : forall s base j j' n β β',
+  base <= j -> j < j' -> j' < next_id s ->
+  lookup N.eqb j (entries s) = Some (Named n β) -> lookup N.eqb j' (entries s) = Some (Named n β') ->
+  ~ NoDup (created_names base s).
+Proof.
+  intros s base j j' n β β' Hb Hlt Hn Ej Ej' Hnd. rewrite created_names_eq in Hnd.
+  destruct (range_split base (N.to_nat (next_id s - base)) j ltac:(lia)) as [n1 [n2 [Hr Hn1]]].
+  rewrite Hr, flat_map_app in Hnd. cbn [flat_map] in Hnd. unfold named_at at 2 in Hnd. rewrite Ej in Hnd. cbn [app] in Hnd.
+  apply NoDup_remove_2 in Hnd. apply Hnd. apply in_or_app. right.
+  apply in_flat_map. exists j'. split; [|unfold named_at; rewrite Ej'; left; reflexivity].
+  assert (Hin : In j' (range base (N.to_nat (next_id s - base)))).
+  { destruct (range_split base (N.to_nat (next_id s - base)) j' ltac:(lia)) as [m1 [m2 [Hr' _]]].
+    rewrite Hr'. apply in_or_app. right. left. reflexivity. }
+  rewrite Hr in Hin. apply in_app_or in Hin. destruct Hin as [Hin|[Hin|Hin]]; [|lia|exact Hin].
+  exfalso. clear - Hin Hn1 Hlt.
+  assert (Hlt' : forall cnt lo k, In k (range lo cnt) -> k < lo + N.of_nat cnt).
+  { induction cnt as [|c IH]; intros lo k H; cbn [range] in H; [destruct H|]. destruct H as [->|H]; [lia|]. apply IH in H. lia. }
+  apply Hlt' in Hin. lia.
+Qed.
+
+Section Within.
+  Context (b hi : N) (s0 : space).
+  Context (Hfresh : list name).     (* the names the batch inserts its definitions under *)
+  Context (Hpre : forall n, In n Hfresh -> lookup N.eqb n (name_to_id s0) = None).
+
+  Record J (rid : N) (t : space) : Prop := mkJ {
+    JA : kept b s0 t;
+    JD : forall n j, lookup N.eqb n (name_to_id s0) = Some j -> lookup N.eqb n (name_to_id t) = Some j;
+    JB : forall n j', lookup N.eqb n (name_to_id t) = Some j' ->
+           lookup N.eqb n (name_to_id s0) = Some j' \/ (b <= j' /\ exists β, lookup N.eqb j' (entries t) = Some (Named n β));
+    JC : forall j n β, b <= j -> lookup N.eqb j (entries t) = Some (Named n β) -> lookup N.eqb n (name_to_id s0) = None;
+    JH : forall j n β, b <= j -> lookup N.eqb j (entries t) = Some (Named n β) -> lookup N.eqb n (name_to_id t) <> None;
+    JF : forall j e, lookup N.eqb j (entries t) = Some e -> j < next_id t;
+    JG : forall k, rid <= k < hi -> lookup N.eqb k (entries t) = None;
+    JK : NoDup (map fst (entries t));
+    JN : hi <= next_id t /\ b <= rid }.
+
+  Lemma J_alloc : forall rid t e (nm : list (name * id)) tt,
+    J rid t ->
+    (forall n j, lookup N.eqb n (name_to_id s0) = Some j -> lookup N.eqb n nm = Some j) ->
+    (forall n j', lookup N.eqb n nm = Some j' ->
+        (j' = next_id t /\ ename e = Some n) \/ lookup N.eqb n (name_to_id t) = Some j') ->
+    (forall n, ename e = Some n -> lookup N.eqb n (name_to_id s0) = None /\ lookup N.eqb n nm <> None) ->
+    (forall n, lookup N.eqb n (name_to_id t) <> None -> lookup N.eqb n nm <> None) ->
+    J rid (mkSpace (next_id t + 1) (upd N.eqb (next_id t) e (entries t)) tt nm (ref_to_id t)).
+  Proof.
+    intros rid t e nm tt HJ HD HB HE HM. destruct HJ as [[A1 A2] D B C H F G K [N1 N2]].
+    constructor; simp_space.
+    - split; simp_space; [lia|]. intros i Hi. rewrite lookup_upd_cases. destruct (i =? next_id t) eqn:E; [apply N.eqb_eq in E; lia|apply A2; exact Hi].
+    - exact HD.
+    - intros n j' Hn. destruct (HB n j' Hn) as [[-> He]|Hold].
+      + right. split; [lia|]. rewrite lookup_upd_cases, N.eqb_refl. destruct e as [n0 β|β]; cbn [ename] in He; [|discriminate].
+        inversion He; subst. exists β. reflexivity.
+      + destruct (B n j' Hold) as [Hl|[Hb [β Hβ]]]; [left; exact Hl|right]. split; [exact Hb|].
+        exists β. rewrite lookup_upd_cases. destruct (j' =? next_id t) eqn:E; [|exact Hβ].
+        apply N.eqb_eq in E. apply F in Hβ. lia.
+    - intros j n β Hb Hj. rewrite lookup_upd_cases in Hj. destruct (j =? next_id t); [|eapply C; eassumption].
+      inversion Hj; subst. apply (HE n). reflexivity.
+    - intros j n β Hb Hj. rewrite lookup_upd_cases in Hj. destruct (j =? next_id t).
+      + inversion Hj; subst. apply (HE n). reflexivity.
+      + apply HM. eapply H; eassumption.
+    - intros j e0 Hj. rewrite lookup_upd_cases in Hj. destruct (j =? next_id t) eqn:E; [apply N.eqb_eq in E; lia|].
+      apply F in Hj. lia.
+    - intros k Hk. rewrite lookup_upd_cases. destruct (k =? next_id t) eqn:E; [apply N.eqb_eq in E; lia|apply G; exact Hk].
+    - apply (keys_upd_nodup N.eqb Neqb_ok). exact K.
+    - split; lia.
+  Qed.
+
+  Lemma assign_J : forall rid t r, J rid t -> J rid (fst (assign_type t r)).
+  Proof.
+    intros rid t r HJ. destruct r as [j|[n β|β]]; cbn [assign_type]; [exact HJ| |].
+    - destruct (lookup N.eqb n (name_to_id t)) eqn:En; cbn [fst]; [exact HJ|].
+      apply J_alloc; [exact HJ| | | |].
+      + intros n0 j Hn0. rewrite lookup_upd_cases. destruct (n0 =? n) eqn:E; [|apply (JD _ _ HJ); exact Hn0].
+        apply N.eqb_eq in E. subst. rewrite (JD _ _ HJ _ _ Hn0) in En. discriminate.
+      + intros n0 j' Hn0. rewrite lookup_upd_cases in Hn0. destruct (n0 =? n) eqn:E; [|right; exact Hn0].
+        apply N.eqb_eq in E. subst. inversion Hn0. left. split; reflexivity.
+      + intros n0 He. cbn [ename] in He. inversion He; subst. split.
+        * destruct (lookup N.eqb n0 (name_to_id s0)) eqn:E0; [|reflexivity]. rewrite (JD _ _ HJ _ _ E0) in En. discriminate.
+        * rewrite lookup_upd_cases, N.eqb_refl. discriminate.
+      + intros n0 Hn0. apply (lookup_upd_some N.eqb Neqb_ok). exact Hn0.
+    - destruct (lookup body_eqb β (type_to_id t)) eqn:En; cbn [fst]; [exact HJ|].
+      apply J_alloc; [exact HJ| | | |].
+      + apply (JD _ _ HJ).
+      + intros n0 j' Hn0. right. exact Hn0.
+      + intros n0 He. discriminate.
+      + auto.
+  Qed.
+
+  Lemma run_script_J : forall scr rid t res, J rid t -> J rid (fst (run_script t res scr)).
+  Proof.
+    induction scr as [|x r IH]; intros rid t res HJ; cbn [run_script]; [exact HJ|].
+    pose proof (assign_J rid t (resolve_t t res x) HJ) as H.
+    destruct (assign_type t (resolve_t t res x)) as [t' i]. cbn [fst] in H. apply IH. exact H.
+  Qed.
+End Within.
+
+Section Within2.
+  Context (b hi : N) (s0 : space).
+  Context (Hfresh : list name).
+  Context (Hpre : forall n, In n Hfresh -> lookup N.eqb n (name_to_id s0) = None).
+  Local Notation J' := (J b hi s0).
+
+  Lemma convert_def_J : forall rid t df, J' rid t -> rid < hi ->
+    (forall n tb, d_ins df = InsNamed n tb -> In n Hfresh) ->
+    J' (rid + 1) (convert_def t rid df).
+  Proof.
+    intros rid t df HJ Hr Hin. unfold convert_def.
+    pose proof (run_script_J b hi s0 (d_script df) rid t [] HJ) as HJ1.
+    destruct (run_script t [] (d_script df)) as [t1 res]. cbn [fst] in HJ1.
+    destruct HJ1 as [[A1 A2] D B C H F G K [N1 N2]].
+    assert (Hhole : lookup N.eqb rid (entries t1) = None) by (apply G; lia).
+    destruct (d_ins df) as [n tb|tb] eqn:Ei.
+    - specialize (Hin n tb eq_refl). pose proof (Hpre n Hin) as Hn0.
+      constructor; simp_space.
+      + split; simp_space; [exact A1|]. intros i Hi. rewrite lookup_upd_cases. destruct (i =? rid) eqn:E; [apply N.eqb_eq in E; lia|apply A2; exact Hi].
+      + intros n1 j Hn1. rewrite lookup_upd_cases. destruct (n1 =? n) eqn:E; [|apply D; exact Hn1].
+        apply N.eqb_eq in E. subst. rewrite Hn0 in Hn1. discriminate.
+      + intros n1 j' Hn1. rewrite lookup_upd_cases in Hn1. destruct (n1 =? n) eqn:E.
+        * apply N.eqb_eq in E. subst. inversion Hn1; subst. right. split; [exact N2|].
+          rewrite lookup_upd_cases, N.eqb_refl. eexists. reflexivity.
+        * destruct (B n1 j' Hn1) as [Hl|[Hb [β Hβ]]]; [left; exact Hl|right]. split; [exact Hb|]. exists β.
+          rewrite lookup_upd_cases. destruct (j' =? rid) eqn:E'; [|exact Hβ]. apply N.eqb_eq in E'. subst. rewrite Hhole in Hβ. discriminate.
+      + intros j n1 β Hb Hj. rewrite lookup_upd_cases in Hj. destruct (j =? rid); [inversion Hj; subst; exact Hn0|eapply C; eassumption].
+      + intros j n1 β Hb Hj. rewrite lookup_upd_cases in Hj. destruct (j =? rid).
+        * inversion Hj; subst. rewrite lookup_upd_cases, N.eqb_refl. discriminate.
+        * apply (lookup_upd_some N.eqb Neqb_ok). eapply H; eassumption.
+      + intros j e Hj. rewrite lookup_upd_cases in Hj. destruct (j =? rid) eqn:E; [apply N.eqb_eq in E; lia|eapply F; exact Hj].
+      + intros k Hk. rewrite lookup_upd_cases. destruct (k =? rid) eqn:E; [apply N.eqb_eq in E; lia|apply G; lia].
+      + apply (keys_upd_nodup N.eqb Neqb_ok). exact K.
+      + split; lia.
+    - constructor; simp_space.
+      + split; simp_space; [exact A1|]. intros i Hi. rewrite lookup_upd_cases. destruct (i =? rid) eqn:E; [apply N.eqb_eq in E; lia|apply A2; exact Hi].
+      + exact D.
+      + intros n1 j' Hn1. destruct (B n1 j' Hn1) as [Hl|[Hb [β Hβ]]]; [left; exact Hl|right]. split; [exact Hb|]. exists β.
+        rewrite lookup_upd_cases. destruct (j' =? rid) eqn:E'; [|exact Hβ]. apply N.eqb_eq in E'. subst. rewrite Hhole in Hβ. discriminate.
+      + intros j n1 β Hb Hj. rewrite lookup_upd_cases in Hj. destruct (j =? rid); [discriminate|eapply C; eassumption].
+      + intros j n1 β Hb Hj. rewrite lookup_upd_cases in Hj. destruct (j =? rid); [discriminate|eapply H; eassumption].
+      + intros j e Hj. rewrite lookup_upd_cases in Hj. destruct (j =? rid) eqn:E; [apply N.eqb_eq in E; lia|eapply F; exact Hj].
+      + intros k Hk. rewrite lookup_upd_cases. destruct (k =? rid) eqn:E; [apply N.eqb_eq in E; lia|apply G; lia].
+      + apply (keys_upd_nodup N.eqb Neqb_ok). exact K.
+      + split; lia.
+  Qed.
+
+  Lemma convert_defs_J : forall defs rid t, J' rid t -> rid + N.of_nat (length defs) <= hi ->
+    (forall df n tb, In df defs -> d_ins df = InsNamed n tb -> In n Hfresh) ->
+    exists rid', J' rid' (convert_defs t rid defs).
+  Proof.
+    induction defs as [|df r IH]; intros rid t HJ Hlen Hin; cbn [convert_defs]; [exists rid; exact HJ|].
+    cbn [length] in Hlen. apply (IH (rid + 1)); [|lia|].
+    - apply convert_def_J; [exact HJ|lia|]. intros n tb. apply Hin. left. reflexivity.
+    - intros df' n tb Hd. apply Hin. right. exact Hd.
+  Qed.
+End Within2.
+
+Definition DomLt (s : space) : Prop := forall j e, lookup N.eqb j (entries s) = Some e -> j < next_id s.
+Definition pre_fresh (s : space) (defs : list defn) : Prop :=
+  forall df n tb, In df defs -> d_ins df = InsNamed n tb -> lookup N.eqb n (name_to_id s) = None.
+
+Lemma Bnd_DomLt : forall s, Bnd s -> DomLt s.
+Proof. intros s [_ [He _]] j e Hj. destruct (He j e Hj) as [Hr _]. unfold inr in Hr. lia. Qed.
+
+Lemma J_init : forall s defs, NInv s -> DomLt s ->
+  J (next_id s) (next_id s + N.of_nat (length defs)) s (next_id s) (reserve s defs).
+Proof.
+  intros s defs [HR HK] HD.
+  assert (Hnone : forall k, next_id s <= k -> lookup N.eqb k (entries s) = None).
+  { intros k Hk. destruct (lookup N.eqb k (entries s)) as [e|] eqn:E; [|reflexivity]. apply HD in E. lia. }
+  constructor; unfold reserve; simp_space.
+  - apply (reserve_kept (next_id s) s defs (N.le_refl _)).
+  - auto.
+  - intros n j' H. left. exact H.
+  - intros j n β Hb Hj. rewrite (Hnone j Hb) in Hj. discriminate.
+  - intros j n β Hb Hj. rewrite (Hnone j Hb) in Hj. discriminate.
+  - intros j e Hj. apply HD in Hj. lia.
+  - intros k Hk. apply Hnone. lia.
+  - exact HK.
+  - split; lia.
+Qed.
+
+Lemma accepted_batch_NInv : forall s defs, NInv s -> DomLt s -> pre_fresh s defs ->
+  created_dup (next_id s) (convert_defs (reserve s defs) (next_id s) defs) = false ->
+  NInv (convert_defs (reserve s defs) (next_id s) defs).
+Proof.
+  intros s defs HN HD Hpf Hcd. set (b := next_id s) in *. set (s2 := convert_defs (reserve s defs) b defs) in *.
+  set (Hf := flat_map (fun df => ins_names' (d_ins df)) defs).
+  assert (Hpre : forall n, In n Hf -> lookup N.eqb n (name_to_id s) = None).
+  { intros n Hn. apply in_flat_map in Hn. destruct Hn as [df [Hdf Hn]].
+    destruct (d_ins df) as [n0 tb|tb] eqn:E; cbn [ins_names'] in Hn; [|destruct Hn].
+    destruct Hn as [->|[]]. eapply Hpf; eassumption. }
+  assert (Hin : forall df n tb, In df defs -> d_ins df = InsNamed n tb -> In n Hf).
+  { intros df n tb Hdf E. apply in_flat_map. exists df. split; [exact Hdf|]. rewrite E. left. reflexivity. }
+  destruct (convert_defs_J b (b + N.of_nat (length defs)) s Hf Hpre defs b (reserve s defs) (J_init s defs HN HD) (N.le_refl _) Hin)
+    as [rid' HJ]. fold s2 in HJ.
+  apply has_dup_false in Hcd. fold s2 in Hcd.
+  destruct HN as [HR HK]. split; [|exact (JK _ _ _ _ _ HJ)].
+  intros j n β Hj. destruct (N.ltb_spec j b) as [Hlt|Hge].
+  - destruct (JA _ _ _ _ _ HJ) as [_ Hk]. rewrite Hk in Hj by exact Hlt. apply (JD _ _ _ _ _ HJ). apply (HR j n β Hj).
+  - pose proof (JC _ _ _ _ _ HJ j n β Hge Hj) as Hn0.
+    pose proof (JH _ _ _ _ _ HJ j n β Hge Hj) as Hreg.
+    destruct (lookup N.eqb n (name_to_id s2)) as [j'|] eqn:En; [|contradiction].
+    destruct (JB _ _ _ _ _ HJ n j' En) as [Hl|[Hb' [β' Hβ']]]; [rewrite Hn0 in Hl; discriminate|].
+    destruct (N.eq_dec j j') as [->|Hne]; [reflexivity|exfalso].
+    pose proof (JF _ _ _ _ _ HJ j _ Hj) as Hjn. pose proof (JF _ _ _ _ _ HJ j' _ Hβ') as Hjn'.
+    destruct (N.lt_ge_cases j j') as [Hc|Hc].
+    + exact (two_named_dup s2 b j j' n β β' Hge Hc Hjn' Hj Hβ' Hcd).
+    + exact (two_named_dup s2 b j' j n β' β Hb' ltac:(lia) Hjn Hβ' Hj Hcd).
+Qed.
+
+(* freshness of the definitions' names against the state BEFORE the call *)
+Fixpoint prefresh_history (s : space) (h : list call) : Prop :=
+  match h with
+  | [] => True
+  | c :: r => match c with AddRefs defs _ _ => pre_fresh s defs | _ => True end
+              /\ prefresh_history (fst (run_call s c)) r
+  end.
+
+Lemma run_call_accepted_NInv : forall s c, NInv s -> Bnd s -> call_ok s c ->
+  match c with AddRefs defs _ _ => pre_fresh s defs | _ => True end -> NInv (fst (run_call s c)).
+Proof.
+  intros s [scr|defs boxes ret|defs done partial] HN HB Hok Hpf; cbn [call_ok] in Hok; [| |contradiction].
+  - apply run_call_NInv; [exact HN|exact I].
+  - destruct Hok as [Hnd [Hcd _]]. cbn [run_call]. rewrite Hnd, Hcd. unfold refs_ok. cbn [fst].
+    apply finalize_range_NInv, fold_box_NInv, accepted_batch_NInv; [exact HN|apply Bnd_DomLt; exact HB|exact Hpf|exact Hcd].
+Qed.
+
+Lemma names_unique_accepted : forall h s, NInv s -> Bnd s -> Dom s -> history_ok s h -> prefresh_history s h ->
+  NoDup (def_names (run_history s h)).
+Proof.
+  induction h as [|c h IH]; intros s HN HB HD Hok Hpf; unfold run_history in *; cbn [fold_left].
+  - apply NInv_nodup. exact HN.
+  - destruct Hok as [Hc Hr]. destruct Hpf as [Hp Hpr]. destruct (run_call_Bnd s c HB HD Hc) as [HB' HD'].
+    apply IH; [apply run_call_accepted_NInv; assumption|exact HB'|exact HD'|exact Hr|exact Hpr].
+Qed.
